@@ -761,16 +761,16 @@ fn set_basic() -> Vec<Glyph> {
             instr: vec![],
             overlap: false,
         },
-        Glyph::Composite {
-            bbox: [-7, -10, 600, 900],
-            comps: vec![comp(enc::ROUND_XY_TO_GRID, 1, Args::Xy8(5, -7), Scale::None), comp(enc::USE_MY_METRICS, 2, Args::Xy16(300, -400), Scale::One(0x2000))],
-            instr: Some(vec![1, 2, 3, 4, 5]),
-        },
-        Glyph::Composite {
-            bbox: [5, 5, 6, 6],
-            comps: vec![comp(0, 1, Args::Pt8(1, 2), Scale::Four([0x4000, -0x1000, 0x0800, 0x3fff])), comp(enc::OVERLAP_COMPOUND, 4, Args::Pt16(258, 3), Scale::Two(0x7fff, -0x8000))],
-            instr: None,
-        },
+        Glyph::composite(
+            [-7, -10, 600, 900],
+            vec![comp(enc::ROUND_XY_TO_GRID, 1, Args::Xy8(5, -7), Scale::None), comp(enc::USE_MY_METRICS, 2, Args::Xy16(300, -400), Scale::One(0x2000))],
+            Some(vec![1, 2, 3, 4, 5]),
+        ),
+        Glyph::composite(
+            [5, 5, 6, 6],
+            vec![comp(0, 1, Args::Pt8(1, 2), Scale::Four([0x4000, -0x1000, 0x0800, 0x3fff])), comp(enc::OVERLAP_COMPOUND, 4, Args::Pt16(258, 3), Scale::Two(0x7fff, -0x8000))],
+            None,
+        ),
         Glyph::simple(vec![vec![pt(0, 0, true)]], vec![0xFF]),
         Glyph::Simple { bbox: [3, 4, 900, 901], contours: vec![vec![pt(3, 4, true), pt(900, 901, false)]], instr: vec![], overlap: true },
     ]
@@ -785,20 +785,20 @@ fn set_composites() -> Vec<Glyph> {
     for (ai, a) in args.iter().enumerate() {
         // one composite per argument form: four components, one per scale form
         let comps: Vec<Component> = scales.iter().enumerate().map(|(si, s)| comp(extras[(ai + si) % 4], (si % 2) as u16, *a, *s)).collect();
-        g.push(Glyph::Composite {
-            bbox: [-(ai as i16) - 30, 2 * ai as i16, 1000 + ai as i16, 77],
+        g.push(Glyph::composite(
+            [-(ai as i16) - 30, 2 * ai as i16, 1000 + ai as i16, 77],
             comps,
-            instr: match ai {
+            match ai {
                 0 => None,
                 1 => Some(vec![]),
                 2 => Some(vec![0xAA; 3]),
                 _ => Some((0..300u32).map(|i| i as u8).collect()),
             },
-        });
+        ));
     }
     for (si, s) in scales.iter().enumerate() {
         // single component composites
-        g.push(Glyph::Composite { bbox: [si as i16 + 1, -5, 10, 10], comps: vec![comp(0, 0, args[si], *s)], instr: if si % 2 == 0 { Some(vec![si as u8 + 1]) } else { None } });
+        g.push(Glyph::composite([si as i16 + 1, -5, 10, 10], vec![comp(0, 0, args[si], *s)], if si % 2 == 0 { Some(vec![si as u8 + 1]) } else { None }));
     }
     g
 }
@@ -830,21 +830,57 @@ fn set_contours() -> Vec<Glyph> {
     ]
 }
 
-const SET_NAMES: [&str; 4] = ["basic", "composites", "on-off-patterns", "contour-and-instruction-sizes"];
+/// one composite with instructions whose WE_HAVE_INSTRUCTIONS bit sits on exactly the components in `mask`
+fn flagged_composite(ncomp: usize, mask: u32, k: usize) -> Glyph {
+    let forms = [Args::Xy8(3, -4), Args::Xy16(300, -2), Args::Pt8(1, 0)];
+    let comps: Vec<Component> = (0..ncomp)
+        .map(|i| comp(if mask & (1 << i) != 0 { enc::WE_HAVE_INSTRUCTIONS } else { 0 } | if i == 1 { enc::ROUND_XY_TO_GRID } else { 0 }, (i % 2) as u16, forms[(i + k) % 3], if i == 2 { Scale::One(0x3000) } else { Scale::None }))
+        .collect();
+    Glyph::composite([k as i16 - 9, -3, 500 + k as i16, 600], comps, Some((0..(1 + k % 5) as u8).map(|j| 0x40 + (k as u8) * 7 + j).collect()))
+}
+
+/// every non-empty placement of WE_HAVE_INSTRUCTIONS over the components of a 1, 2 or 3 component composite
+fn flag_placements() -> Vec<(usize, u32)> {
+    let mut v = Vec::new();
+    for ncomp in 1..=3usize {
+        for mask in 1..(1u32 << ncomp) {
+            v.push((ncomp, mask));
+        }
+    }
+    v
+}
+
+/// 4: hinted composites with every placement of WE_HAVE_INSTRUCTIONS (first only, middle only, last only, all, first+last, ..),
+/// each followed by a simple glyph with points and instructions and, further on, by more composites with instructions, so that a
+/// decoder that loses track of the glyph / instruction streams is seen in the later glyphs
+fn set_instruction_flag_placement() -> Vec<Glyph> {
+    let mut g = vec![Glyph::simple(vec![vec![pt(1, 2, true), pt(30, 40, false), pt(50, 2, true)]], vec![0x11]), Glyph::simple(vec![vec![pt(-5, 0, true), pt(7, 9, true)]], vec![])];
+    for (k, (ncomp, mask)) in flag_placements().into_iter().enumerate() {
+        g.push(flagged_composite(ncomp, mask, k));
+        let o = k as i16;
+        g.push(Glyph::simple(vec![vec![pt(o - 20, o, true), pt(o + 100, 200 - o, k % 2 == 0), pt(o + 3, -o - 7, true)]], vec![0x80 + k as u8, 0x81, k as u8]));
+    }
+    g.push(Glyph::composite([0, 0, 9, 9], vec![comp(0, 0, Args::Xy8(1, 1), Scale::None), comp(0, 1, Args::Xy8(2, 2), Scale::None)], Some(vec![0xEE, 0xEF])));
+    g.push(Glyph::simple(vec![vec![pt(4, 4, true), pt(8, 8, false)]], vec![0x99]));
+    g
+}
+
+const SET_NAMES: [&str; 5] = ["basic", "composites", "on-off-patterns", "contour-and-instruction-sizes", "composite-instruction-flag-placement"];
 
 fn glyph_set(i: usize) -> Vec<Glyph> {
     match i {
         0 => set_basic(),
         1 => set_composites(),
         2 => set_onoff(),
-        _ => set_contours(),
+        3 => set_contours(),
+        _ => set_instruction_flag_placement(),
     }
 }
 
 fn run_fonts(ctx: &Ctx) {
     let thorough = ctx.tier.thorough();
     let bound = if thorough { 4 } else { 2 };
-    let sets: Vec<Vec<Glyph>> = (0..4).map(glyph_set).collect();
+    let sets: Vec<Vec<Glyph>> = (0..SET_NAMES.len()).map(glyph_set).collect();
     let s = explore_par(bound, 3, |c: &mut Chooser<'_>| {
         let si = c.pick(sets.len());
         let glyphs = sets[si].clone();
@@ -1034,7 +1070,7 @@ fn sparse_set(n: usize) -> Vec<Glyph> {
         match k {
             0 => Glyph::Simple { bbox: [-o - 1, -2, o + 50, 99], contours: vec![vec![pt(-o, 0, true), pt(o + 40, 90, false)]], instr: vec![], overlap: false },
             1 => Glyph::simple(vec![vec![pt(o + 2, 1, true), pt(o + 9, 7, true), pt(o + 5, -3, false)]], vec![i as u8]),
-            2 => Glyph::Composite { bbox: [o + 1, o, 300, 400], comps: vec![comp(0, 0, Args::Xy8(1, 1), Scale::None)], instr: None },
+            2 => Glyph::composite([o + 1, o, 300, 400], vec![comp(0, 0, Args::Xy8(1, 1), Scale::None)], None),
             _ => Glyph::Empty,
         }
     };
@@ -1128,6 +1164,31 @@ fn run_boundaries(ctx: &Ctx) {
             }
         }
     });
+    // (e) one font per placement of WE_HAVE_INSTRUCTIONS over the components of a hinted composite; the composite is followed by
+    // a simple glyph with points and instructions, a second hinted composite (flag on the last component) and a last simple glyph
+    let placements = flag_placements();
+    ctx.set("composite_instruction_flag_placements", json!(placements.len()));
+    placements.par_iter().enumerate().for_each(|(k, &(ncomp, mask))| {
+        for glyf_transform in [true, false] {
+            for u255 in U255_MODES {
+                let glyphs = vec![
+                    Glyph::simple(vec![vec![pt(0, 0, true), pt(10, 20, false), pt(20, 0, true)]], vec![]),
+                    Glyph::simple(vec![vec![pt(2, 2, true), pt(4, 9, true)]], vec![0x01]),
+                    flagged_composite(ncomp, mask, k),
+                    Glyph::simple(vec![vec![pt(-3, 1, true), pt(55, 66, false), pt(9, -9, true)]], vec![0xA0, 0xA1, 0xA2]),
+                    Glyph::composite([1, 1, 2, 2], vec![comp(0, 0, Args::Xy8(1, 1), Scale::None), comp(0, 1, Args::Xy16(256, 0), Scale::None)], Some(vec![0xB0, 0xB1])),
+                    Glyph::simple(vec![vec![pt(7, 7, false), pt(8, 9, true)]], vec![0xC0]),
+                ];
+                let m = ttf_model(glyphs, 3, 3, true);
+                let mut ch = EncCh::plain(&m);
+                ch.glyf_transform = glyf_transform;
+                ch.gc.u255 = u255;
+                ch.hmtx_flags = if glyf_transform { 3 } else { 0 };
+                run_single(ctx, &m, &ch, false, false, &|| json!({"family": "composite-instruction-flag", "components": ncomp, "we_have_instructions_on_components_mask": mask, "glyf_transform": glyf_transform, "u255": format!("{:?}", u255)}));
+                ctx.add_states(1);
+            }
+        }
+    });
     // (d) CFF flavoured fonts: nothing can be transformed, every table comes back as stored
     for (clen, n) in [(0usize, 1usize), (1, 3), (333, 5), (70000, 9)] {
         for explicit in [false, true] {
@@ -1164,8 +1225,8 @@ pub fn run(ctx: &Ctx) {
         "case = one WOFF2 file written by the independent encoder (otmodel::woff2enc) from a model font and one complete assignment of encoder choices, \
          decoded by allsorts through Woff2Font and FontData and compared table by table with the model; families: (1) 255UInt16 all values x all encodings and \
          UIntBase128 byte strings read directly, (2) one font per (delta, admissible triplet row, point position, on-curve bit) for the deltas at the ends of every \
-         row's range, (3) four glyph sets x numberOfHMetrics x lsb pattern x hmtx flags (full product) x deviations in the remaining encoder choices, \
-         (4) collections of 1-3 fonts x sharing patterns x per-font choices, (5) boundary fonts (numGlyphs, loca format switch, known tags, CFF). \
+         row's range, (3) five glyph sets x numberOfHMetrics x lsb pattern x hmtx flags (full product) x deviations in the remaining encoder choices, \
+         (4) collections of 1-3 fonts x sharing patterns x per-font choices, (5) boundary fonts (numGlyphs, loca format switch, known tags, CFF, every placement of WE_HAVE_INSTRUCTIONS over 1-3 components). \
          non-trivial = at least one table is stored transformed (fonts) / the encoding is longer than one byte (integers)",
     );
     ctx.assume("brotli stream consists of uncompressed meta-blocks only (no compressor offline); the decompressor crate is trusted");
